@@ -26,15 +26,27 @@ PROPS = {
     },
     "C08": {
         "manifest": {
-            "technique": "machine-checked proof in Coq (XOR involution, PKCS7 and CBC round trips, layout and rejection theorems; AES-256 written in Gallina with its inverse law proved for all keys and blocks, which discharges the block-cipher hypothesis) + byte-for-byte model/implementation correspondence by vm_compute",
-            "text": "Thirteen theorems in coq/theories/Crypto*.v and Aes*.v for all keys, all byte strings and all IVs: xor is its own inverse with the key repeated, unpad(pad p) = p, CBC decryption inverts CBC encryption for any block cipher with D(E b) = b; AES-256 (S-box, ShiftRows, MixColumns, AddRoundKey, key expansion, FIPS-197 byte order) satisfies D_k(E_k b) = b = E_k(D_k b) for every 32-byte key and every 16-byte block (S-box by 256 kernel-checked cases, MixColumns by XOR-linearity plus the one-coordinate columns, round structure by induction over any list of round keys), hence the AES provider round trip decrypt(encrypt p) = p with NO hypothesis about the block cipher; ciphertext layout iv ++ body with |body| = 16(|p|/16+1); ciphertexts shorter than 32 bytes or not block-aligned are rejected; the recorded method is concrete. The model computes IV layout, padding, chaining and the AES block function itself and is compared byte for byte with encryption.py under a recorded os.urandom (stream crypto); the Gallina block function is compared with cryptography's AES-ECB on FIPS-197 / SP 800-38A vectors, single-bit keys and blocks, all byte values and random pairs (stream aesblock).",
+            "technique": "machine-checked proof in Coq (XOR involution, PKCS7 and CBC round trips, layout and rejection theorems; AES-256 written in Gallina with its inverse law proved for all keys and blocks, which discharges the block-cipher hypothesis; the field-level wrapper SecureField.to_basic / to_python modelled over arbitrary stored values with CPython's non-validating base64 decoder and strict UTF-8, its accepted shape characterised exactly and its round trip proved without any remaining hypothesis) + byte-for-byte model/implementation correspondence by vm_compute",
+            "text": "Twenty-three theorems. Ten in coq/theories/SecureShape*.v about the wrapper SecureField.to_python / to_basic (secure_field.py + KeyFile.encrypt/decrypt/_get_provider) for ALL stored values (any pyval: None, str, maps with any keys and values of any type, lists, numbers, bytes ...), all keys, AES available or not: to_python returns a value exactly for None, a str, or a map whose `method` is the str aes / xor / best and whose `ciphertext` is a str the non-validating base64 decoder accepts and whose decryption and strict UTF-8 decoding succeed (C08_to_python_ok_iff); everything outside that decidable shape is an error (C08_shape_rejected, C08_value_only_from_shape), inside it the result is the recorded method's cipher applied to the decoded bytes and nothing else (C08_shape_accepted); an AES ciphertext shorter than 32 bytes or not a multiple of 16 is an error through the wrapper (C08_field_aes_short_rejected); to_python(to_basic p) = p for every non-empty str that UTF-8 encodes, every 32-byte key, 16-byte IV and declared method, composing the proved base64, XOR / PKCS7 / CBC / AES-256 and UTF-8 round trips with NO hypothesis left (C08_field_roundtrip, C08_utf8_dec_enc); empty / None is written null and comes back None; to_basic writes null or {method: aes|xor, ciphertext: base64 text} (C08_to_basic_shape, C08_to_basic_method_concrete). Tied to the code by stream securevalues (now a model stream, SecureShape.run_securevalues, recorded os.urandom). Thirteen in coq/theories/Crypto*.v and Aes*.v for all keys, all byte strings and all IVs: xor is its own inverse with the key repeated, unpad(pad p) = p, CBC decryption inverts CBC encryption for any block cipher with D(E b) = b; AES-256 (S-box, ShiftRows, MixColumns, AddRoundKey, key expansion, FIPS-197 byte order) satisfies D_k(E_k b) = b = E_k(D_k b) for every 32-byte key and every 16-byte block (S-box by 256 kernel-checked cases, MixColumns by XOR-linearity plus the one-coordinate columns, round structure by induction over any list of round keys), hence the AES provider round trip decrypt(encrypt p) = p with NO hypothesis about the block cipher; ciphertext layout iv ++ body with |body| = 16(|p|/16+1); ciphertexts shorter than 32 bytes or not block-aligned are rejected; the recorded method is concrete. The model computes IV layout, padding, chaining and the AES block function itself and is compared byte for byte with encryption.py under a recorded os.urandom (stream crypto); the Gallina block function is compared with cryptography's AES-ECB on FIPS-197 / SP 800-38A vectors, single-bit keys and blocks, all byte values and random pairs (stream aesblock).",
             "note": "Trusted: Coq kernel + vm_compute; the correspondence harness. The AES-256 primitive is no longer assumed: its inverse law is a theorem about Aes.v. What remains assumed is that cryptography's AES is that FIPS-197 AES-256, which the aesblock stream samples (known answers + random blocks) and the crypto stream exercises on every case; 'a different key never yields the plaintext' is cryptographic and only sampled. No axioms.",
             "design_ref": "DESIGN.md section 6 C08"},
         "streams": ["crypto", "aesblock", "securevalues", "keyfile"],
         # of the key-file stream (C07) the C08 clause: across sessions and provider objects the cipher uses the session's key
         "stream_filters": {"keyfile": r"cipher result was not computed with the key"},
         "witnesses": [],
-        "rule": ("crypto: deterministic matrix (2 keys x 4 methods x 12 boundary plaintext lengths) plus seeded random cases: "
+        "rule": ("securevalues: deterministic matrix (3 declared methods x 31 kinds of stored value derived from what to_basic wrote -- valid in "
+                 "the same / another session / another field object, plaintext string, null, missing / null / empty / unknown / "
+                 "non-str method, missing / null / bytes / int / list ciphertext, wrong-length, unpadded, over-padded, newline "
+                 "and one-character base64, truncations and extensions by 1 / 15 / 16 bytes and to the IV, empty ciphertext, "
+                 "another key, wrong containers, the other method -- x 3 plaintexts; 25 objects in the method position (0, 1, "
+                 "True, False, lists, bytes, 'AES', ' aes', floats incl. nan and -0.0, maps, tuples, None ...); 22 free-form "
+                 "values (numbers, bytes, lists, tuples, maps with missing / extra / reordered / non-str keys); 5 declared "
+                 "methods incl. unknown and empty x 9 plain values incl. '', None, non-BMP text, a lone surrogate, bytes; 120 "
+                 "base64 texts with characters inserted / removed / replaced and pads in odd places) plus seeded random cases "
+                 "of the same families; model and implementation are compared on the outcome kind (value / ValueError / "
+                 "UnicodeError / TypeError) and the value of BOTH to_basic and to_python; non-trivial = not the null / "
+                 "plain-string case. "
+                 "crypto: deterministic matrix (2 keys x 4 methods x 12 boundary plaintext lengths) plus seeded random cases: "
                  "encryptions under a recorded IV and decryptions of valid / short / misaligned / bad-padding / "
                  "foreign-key / garbage values; non-trivial = a real method (not the bogus one); distinct = distinct case. "
                  "aesblock: deterministic matrix (constant keys/blocks, FIPS-197 C.3 and SP 800-38A F.1.5 known answers in "
@@ -51,7 +63,15 @@ PROPS = {
                         "cryptography's AES primitive equals the verified Gallina AES-256 on all inputs: sampled (aesblock, crypto), not proved; "
                         "the block-cipher inverse law itself is no longer an assumption (C08_aes_roundtrip_concrete has no hypothesis about E/D)",
                         "theorems about the concrete cipher range over lists of bytes (entries < 256, bytes_ok): every Python bytes object is one",
-                        "SecureField.to_python shape checks are covered with the fields stream (C05/C03), not here"],
+                        "SecureField wrapper (SecureShape.v): a map is read as Python builds it (last binding of a repeated key); "
+                        "the only unmodelled inputs are an object of an unknown class in the `method` position (its truthiness is "
+                        "not known; hypothesis shape_modelled) and to_basic of a truthy value that is neither str nor bytes "
+                        "(SecureField._validate only lets str through); UnicodeDecodeError is kept apart from the other "
+                        "ValueErrors (both are 'rejected with an error')",
+                        "base64.b64decode is modelled as CPython 3.12's non-validating binascii.a2b_base64 (Challenge.b64_decode: "
+                        "non-alphabet characters discarded, a complete pad sequence ends the parse, left-over sextets are an error, "
+                        "non-ASCII text is an error) -- compared with the interpreter on every securevalues case, 120+ of them "
+                        "non-canonical; bytes.decode() as strict UTF-8 (shortest form, no surrogates, <= U+10FFFF)"],
     },
     "C18": {
         "manifest": {
